@@ -6,12 +6,14 @@ import Rivaas.Model.BindBody
 import Rivaas.Spec.BindBody
 import Rivaas.Model.BindAll
 import Rivaas.Spec.BindAll
+import Rivaas.Model.BindNestJSON
+import Rivaas.Spec.BindNestJSON
 import Rivaas.Lemmas.BindPath
 /-
 Driver for C04. Case line:
   <id> <G|T|B> <tag 0..4> <maxDepth> <maxSlice> <maxMap> <csv> <baseAuto> <nconv> { <leaf type key> <converter> }* <allErrors> <evB> <evC> <viaBinder> <Ty> <init Val>
        <nkeys> { <key> <nvals> <val>* }*        (entry B: <nsrc> { <tag> <nkeys> { <key> <nvals> <val>* }* }*)
-       <ntbl> { <string> <i10> <i0> <u10> <u0> <f> <t> <d> <j> <nopq> { <kind> <rendering> }* <nconv> { <converter> <rendering> }* }*
+       <ntbl> { <string> <i10> <i0> <u10> <u0> <f> <t> <d> <j> <nopq> { <kind> <rendering> }* <nconv> { <converter> <rendering> }* <nj: 0 | 1 Val> }*
        => (O <Val> | E <n> <name>* <D|L|M|C> | X) V <FieldBound B> <Done B> <FieldBound C> <Done C> <Stats.FieldsBound|-1>
   Ty  ::= P <code> | R Ty | L Ty | M Ty | T <n> { <name> <exported> <anon> <q> <p> <f> <h> <c> <default> Ty }*
   Val ::= i <int> | u <nat> | f <bits> | b <0|1> | s <str> | t <str> | n | p Val | l <n> Val* | m <n> {<key> Val}* | S <n> Val*
@@ -72,7 +74,8 @@ def pEntry : P (Bytes × PEntry) := do
   let j ← opt (list (do let k ← str; let v ← str; pure (k, v)))
   let o ← list (do let k ← nat; let r ← str; pure (k, r))
   let c ← list (do let k ← nat; let r ← str; pure (k, r))
-  pure (s, { i10 := i10, i0 := i0, u10 := u10, u0 := u0, f := f, t := t, d := d, j := j, o := o, c := c })
+  let nj ← opt pVal
+  pure (s, { i10 := i10, i0 := i0, u10 := u10, u0 := u0, f := f, t := t, d := d, j := j, o := o, c := c, nj := nj })
 
 def pTag : P Tag := do
   let n ← nat
@@ -515,8 +518,9 @@ def stepPlain (id : String) (c : Case) (obs : List String) : String :=
         let m := toObs (bindMulti P c.cfg fs c.init c.srcs)
         verdict id (encObs m == encObs o && emi) (Spec.specMulti P c.cfg fs c.init c.srcs o && es) "-" (encObs m)
       else
-        let m := toObs (bind P c.cfg c.tag c.ty c.init c.src)
-        verdict id (encObs m == encObs o && emi) (Spec.specOK P c.cfg c.tag fs c.init c.src o && es) "-" (encObs m)
+        -- one source: with the nested-struct JSON shortcut (`bindJ` is `bind` where the table ships no decoded struct)
+        let m := toObs (bindJ P c.cfg c.tag c.ty c.init c.src)
+        verdict id (encObs m == encObs o && emi) (Spec.specOKJ P c.cfg c.tag fs c.init c.src o && es) "-" (encObs m)
     | _ => s!"{id} bad-case type"
 
 def step (line : String) : String :=
